@@ -6,6 +6,7 @@ import SedpackDriver.Iter
 import SedpackDriver.Tree
 import SedpackDriver.Crash
 import SedpackDriver.Select
+import SedpackDriver.Path
 open Lean
 namespace Sedpack.Drv
 
@@ -21,6 +22,7 @@ def dispatch (m : String) (j : Json) : Except String Json :=
   | "check" => checkJ j
   | "crash" => crash j
   | "select" => selectJ j
+  | "path" => pathJ j
   | _ => .error s!"unknown model {m}"
 
 end Sedpack.Drv
